@@ -1,6 +1,7 @@
 package http
 
 import (
+	"github.com/kubeshark/base/pkg/verifhook"
 	"net/http"
 	"sync"
 	"time"
@@ -25,6 +26,7 @@ func (matcher *requestResponseMatcher) SetMaxTry(value int) {
 }
 
 func (matcher *requestResponseMatcher) registerRequest(ident string, request *http.Request, captureTime time.Time, captureSize int, protoMinor int) *api.OutputChannelItem {
+	verifhook.Yield("match.req.pre")
 	requestHTTPMessage := api.GenericMessage{
 		IsRequest:   true,
 		CaptureTime: captureTime,
@@ -44,11 +46,13 @@ func (matcher *requestResponseMatcher) registerRequest(ident string, request *ht
 		return matcher.preparePair(&requestHTTPMessage, responseHTTPMessage, protoMinor)
 	}
 
+	verifhook.Yield("match.req.mid")
 	matcher.openMessagesMap.Store(ident, &requestHTTPMessage)
 	return nil
 }
 
 func (matcher *requestResponseMatcher) registerResponse(ident string, response *http.Response, captureTime time.Time, captureSize int, protoMinor int) *api.OutputChannelItem {
+	verifhook.Yield("match.res.pre")
 	responseHTTPMessage := api.GenericMessage{
 		IsRequest:   false,
 		CaptureTime: captureTime,
@@ -68,6 +72,7 @@ func (matcher *requestResponseMatcher) registerResponse(ident string, response *
 		return matcher.preparePair(requestHTTPMessage, &responseHTTPMessage, protoMinor)
 	}
 
+	verifhook.Yield("match.res.mid")
 	matcher.openMessagesMap.Store(ident, &responseHTTPMessage)
 	return nil
 }
